@@ -84,6 +84,8 @@ def version_answers():
     out = [{"kind": "version", "value": v} for v in N.UNIVERSE]
     # an offered version with white space around it is a DIFFERENT string: not in the caller's list
     out += [{"kind": "version", "value": a + v + b} for v in N.REAL[:2] for a, b in PADS]
+    # the empty string and a lone space: strings like any other, offered by nobody
+    out += [{"kind": "version", "value": ""}, {"kind": "version", "value": " "}]
     return out
 
 
